@@ -29,6 +29,12 @@ package commitlog
 // announced epochs) at each operation comes from an in-process reference run
 // of the same deterministic workload.
 //
+// Workloads: the first base plans and the first plans of the interleave family
+// (c05InterPlans).  In the latter the child's hook handler performs the
+// operations a plan interleaves with a cleaner pass (no image, no kill); all of
+// them lie inside the bracket of the C operation, so for a kill inside that
+// bracket the messages they append are the in-flight batch (c05SysReference).
+//
 // Case list: a calibration run of every workload under strace WITHOUT
 // injection lists its file-system calls per thread; from it the (set, N) pairs
 // are derived that are predicted to hit each distinct combination of
@@ -55,6 +61,7 @@ import (
 	"time"
 
 	kit "github.com/liftbridge-io/liftbridge/internal/verifkit"
+	"github.com/liftbridge-io/liftbridge/server/verifhook"
 )
 
 const c05SysMarkPrefix = "/c05-mark/"
@@ -97,6 +104,9 @@ func TestVerifC05SysChild(t *testing.T) {
 		fmt.Fprintln(os.Stderr, "c05 sys child: bad plan index")
 		os.Exit(4)
 	}
+	// the hook handler only drives the operations a plan interleaves with a
+	// cleaner pass (no image, no kill: the crash comes from strace)
+	verifhook.Set(c05Dispatch)
 	ex := &c05Exec{plan: plans[idx], dir: dir, closeIsOp: true, onOp: c05SysMarker}
 	failed := false
 	ex.run(func(fp, what string) {
@@ -268,6 +278,7 @@ type c05SysOpState struct {
 	InFlight []vfRec
 	Required map[int64]bool
 	Elected  map[uint64]bool
+	Suspect  map[uint64]bool
 	After    []vfRec
 	HWAfter  int64
 	Done     bool
@@ -302,6 +313,26 @@ func c05SysReference(plan c05Plan, fail func(fp, what string)) []*c05SysOpState 
 		st.After = append([]vfRec(nil), ex.model...)
 		st.HWAfter = ex.hw
 		st.Done = true
+		st.Suspect = cpE(ex.suspect)
+		if st.Kind == "C" {
+			// Operations may have been interleaved with this cleaner pass.  A kill
+			// inside the pass may have come before, inside or after any of them:
+			// the messages they appended, in order, are the in-flight batch (a
+			// prefix may be present); of the older messages, what the pass had to
+			// keep under the old and the new HW must survive; elections they held
+			// count as announced.
+			if len(ex.pre) > len(st.Pre) {
+				st.InFlight = append([]vfRec(nil), ex.pre[len(st.Pre):]...)
+			}
+			isPre := c05AllRequired(st.Pre)
+			st.Required = map[int64]bool{}
+			for k := range ex.required {
+				if isPre[k] {
+					st.Required[k] = true
+				}
+			}
+			st.Elected = cpE(ex.elected)
+		}
 	}
 	ex.run(fail)
 	return states
@@ -404,7 +435,7 @@ type c05SysCase struct {
 func TestVerifC05SyscallKill(t *testing.T) {
 	rep := kit.NewReport("C05", "syscallkill")
 	defer rep.Write()
-	rep.SetRule("fault injection at system-call granularity, independent of hook points: a child process runs a seeded C05 workload (Append and AppendMessageSet with rolls, epoch bumps on appended and replicated messages, NewLeaderEpoch, HW moves + explicit checkpoints, truncations incl. exactly at a segment base / the first offset of the latest epoch / the newest offset, Clean with retention and compaction, Close) under `strace -e inject=<set>:signal=SIGKILL:when=N` and dies on entering the N-th call of <set> (openat | write | rename* | fsync | ftruncate | unlink*; N counts per thread); (set, N) pairs are derived from an uninjected calibration trace of each workload so that every observed (operation kind, system call, kind of file) combination is aimed at, plus seeded random pairs; the directory is recovered with commitlog.New (which must succeed) and judged by the same oracle as the snapshot unit, the in-flight operation being known from marker calls in the trace; distinct non-trivial = distinct (workload, operation, system call, file, N) crash instants inside the log's life (after the first open started)")
+	rep.SetRule("fault injection at system-call granularity, independent of hook points: a child process runs a seeded C05 workload (Append and AppendMessageSet with rolls, epoch bumps on appended and replicated messages incl. replicated sets spanning epoch boundaries, operations interleaved with a cleaner pass by the hook handler, NewLeaderEpoch, HW moves + explicit checkpoints, truncations incl. exactly at a segment base / the first offset of the latest epoch / the newest offset, Clean with retention and compaction, Close) under `strace -e inject=<set>:signal=SIGKILL:when=N` and dies on entering the N-th call of <set> (openat | write | rename* | fsync | ftruncate | unlink*; N counts per thread); (set, N) pairs are derived from an uninjected calibration trace of each workload so that every observed (operation kind, system call, kind of file) combination is aimed at, plus seeded random pairs; the directory is recovered with commitlog.New (which must succeed) and judged by the same oracle as the snapshot unit, the in-flight operation being known from marker calls in the trace; distinct non-trivial = distinct (workload, operation, system call, file, N) crash instants inside the log's life (after the first open started)")
 	rep.Assume("process-crash model: the OS keeps the effects of every system call that returned before the kill; the call being entered has no effect; other threads' calls in progress may or may not have taken effect")
 	rep.Assume("the in-process reference run and the child execute the same deterministic workload (validated by the kill unit's snapshot-vs-kill comparison)")
 	strace, err := exec.LookPath("strace")
@@ -424,11 +455,25 @@ func TestVerifC05SyscallKill(t *testing.T) {
 	runner := &c05SysRunner{self: self, strace: strace, seccomp: seccomp}
 	rep.SetInfo("strace_seccomp_bpf", seccomp)
 
-	plans := c05Plans()
-	nplans := kit.Scale(8, 40)
-	if nplans > len(plans) {
-		nplans = len(plans)
+	// the reference runs need the hook handler for the operations that plans
+	// interleave with a cleaner pass
+	verifhook.Set(c05Dispatch)
+	defer verifhook.Set(nil)
+	// workloads: the first base plans and the first plans of the interleave
+	// family; the child is told the index in c05Plans() (= plan ID)
+	var plans []c05Plan
+	{
+		base, inter := c05FamilyPlans(""), c05FamilyPlans("inter")
+		nb, ni := kit.Scale(6, 30), kit.Scale(4, 14)
+		if nb > len(base) {
+			nb = len(base)
+		}
+		if ni > len(inter) {
+			ni = len(inter)
+		}
+		plans = append(append(plans, base[:nb]...), inter[:ni]...)
 	}
+	nplans := len(plans)
 	budget := kit.Scale(210, 2400)
 	perCombo := kit.Scale(2, 12)
 	workers := kit.EnvInt("VERIF_WORKERS", 10)
@@ -446,7 +491,7 @@ func TestVerifC05SyscallKill(t *testing.T) {
 		defer os.RemoveAll(dir)
 		logFile := dir + ".strace"
 		defer os.Remove(logFile)
-		outcome, detail := runner.run(i, dir, logFile, "")
+		outcome, detail := runner.run(plan.ID, dir, logFile, "")
 		if outcome != "finished" {
 			rep.Inconc(fmt.Sprintf("calibration run of plan %d did not finish cleanly: %s %s", i, outcome, detail))
 			return
@@ -565,7 +610,7 @@ func TestVerifC05SyscallKill(t *testing.T) {
 		logFile := dir + ".strace"
 		defer os.Remove(logFile)
 		inject := fmt.Sprintf("%s:signal=SIGKILL:when=%d", c.Set, c.N)
-		outcome, detail := runner.run(c.Plan, dir, logFile, inject)
+		outcome, detail := runner.run(plan.ID, dir, logFile, inject)
 		switch outcome {
 		case "finished":
 			mu.Lock()
@@ -609,6 +654,7 @@ func TestVerifC05SyscallKill(t *testing.T) {
 			}
 			img.OpIndex, img.OpKind = inOp-2, st.Kind
 			img.Pre, img.InFlight, img.Required, img.Elected = st.Pre, st.InFlight, st.Required, st.Elected
+			img.Suspect = st.Suspect
 			img.HW = st.HWAfter
 			if !st.Done {
 				rep.Inconc(fmt.Sprintf("plan %d: operation %d did not complete in the reference run", c.Plan, inOp-1))
@@ -622,6 +668,7 @@ func TestVerifC05SyscallKill(t *testing.T) {
 			}
 			img.OpIndex, img.OpKind = afterOp-2, "idle"
 			img.Pre, img.InFlight, img.Required, img.Elected = st.After, nil, c05AllRequired(st.After), st.Elected
+			img.Suspect = st.Suspect
 			img.HW = st.HWAfter
 		}
 		combo := img.OpKind + "/" + hit.Name + "/" + hit.Kind
